@@ -105,6 +105,11 @@ def run(ctx):
             jobs += positions({"k": "set", "doc": 1, "values": vals, "name": "SELF_VAR", "doctext": dt})
     for dt in ([], [""]):
         jobs += positions({"k": "option", "doc": 1, "doctext": dt})
+    # the same declaration twice (e.g. in two branches): both keep their entry
+    for ev in ({"k": "option", "doc": 0, "name": "TWIN_OPT"}, {"k": "option", "doc": 1, "name": "TWIN_OPT", "doctext": ["Same."]},
+               {"k": "set", "doc": 1, "name": "TWIN_VAR", "values": ["v"], "doctext": ["Same."]}):
+        jobs.append([{"k": "if", "doc": 0}, dict(ev), {"k": "close"}, {"k": "if", "doc": 0}, dict(ev), {"k": "close"}])
+        jobs.append([dict(ev), {"k": "generic", "doc": 0}, dict(ev), dict(ev)])
     case = common.rot(["lower", "upper", "mixed"], ctx.seed + 4)[0]
     ctx.cov["bounds"] = {"value_forms": FORMS, "core": CORE, "max_values_all_forms": k_all, "max_values_core": k_core,
                          "helps": HELPS, "defaults": DEFAULTS, "positions": 4, "command_case": case}
